@@ -56,7 +56,7 @@ def gen_cases(ctx):
             order = rng.sample(TOKENS, len(TOKENS))
         c.update(kind="twin", order=order,
                  builder=rng.choice(["disjunctive", "agent_task", "with_jobs", "complete"]),
-                 h1=rng.choice(["partial", "partial", "complete", "rejected", "one"]),
+                 h1=rng.choice(["partial", "partial", "complete", "rejected", "one", "none"]),
                  updater_opts=rng.choice([{}, {}, {"remove_completed_machine_nodes": False},
                                           {"remove_completed_job_nodes": False}]),
                  late=rng.random() < 0.3,
@@ -129,14 +129,17 @@ def run_twin(ctx, case):
     rng = random.Random(case["seed"])
     inst = case["instance"]
     A = Run(inst, case.get("filter"))   # h1; reset; h2
-    B = Run(inst, case.get("filter"))   # fresh; h2
+    # fresh; h2 - on its own instance object, or on the very instance object A uses
+    B = Run(inst, case.get("filter"), instance=A.instance if case["seed"] % 2 else None)
+    if case["seed"] % 2:
+        ctx.count("twins_sharing_the_instance_object")
     late = case.get("late", False)
     if not late:
         build_observers(ctx, A.d, case)
     build_observers(ctx, B.d, case)
     # ---- h1 on A
     n1 = {"partial": rng.randint(1, max(1, A.r.num_ops - 1)), "complete": A.r.num_ops,
-          "rejected": rng.randint(1, A.r.num_ops), "one": 1}[case["h1"]]
+          "rejected": rng.randint(1, A.r.num_ops), "one": 1, "none": 0}[case["h1"]]
     late_at = rng.randint(1, max(1, min(n1, A.r.num_ops))) if late else None
     for k in range(min(n1, A.r.num_ops)):
         if late and k == late_at - 1 + 0 and not A.d.subscribers and k > 0:
@@ -156,6 +159,9 @@ def run_twin(ctx, case):
         raise RuntimeError("harness: twins have different observer sets")
     h1 = list(A.r.history)
     A.d.reset(); A.r.reset()
+    if case["seed"] % 5 == 0:
+        A.d.reset()      # resetting twice is resetting once
+        ctx.count("double_resets")
     traceA, traceB = [state_of(A.d)], [state_of(B.d)]
     rng2 = random.Random(case["seed"] + 17)
     while not B.done():
